@@ -422,6 +422,13 @@ func (e *boundsEngine) factsFrom(bo *ssa.BinOp, neg bool) []fact {
 		if x.term == "" && x.off == 0 && strings.HasPrefix(y.term, "len(") && y.off == 0 {
 			return []fact{mk(x, y, -1)}
 		}
+		// i != 0 for an i that is never negative (a counter that starts at 0 and only grows)  =>  i >= 1
+		if y.term == "" && y.off == 0 && x.term != "" && e.nonneg(bo.X, nil, bo, 0, map[ssa.Value]bool{}) {
+			return []fact{mk(y, x, -1-0)}
+		}
+		if x.term == "" && x.off == 0 && y.term != "" && e.nonneg(bo.Y, nil, bo, 0, map[ssa.Value]bool{}) {
+			return []fact{mk(x, y, -1)}
+		}
 	}
 	return nil
 }
